@@ -2,6 +2,7 @@
 
 mod common;
 mod e2;
+mod e3;
 mod linemodel;
 
 use common::*;
@@ -23,6 +24,7 @@ fn plan_for(prop: &str) -> Option<Plan> {
     Some(match prop {
         "C05" | "C06" | "C19" => Plan { engine: "linebuf", quick_runs: 500_000, thorough_runs: 40_000_000, sweep_every: 25, note: "underlying writes are all-or-nothing (datagram semantics); short writes are not injected; sockets are stubs" },
         "C07" => Plan { engine: "linebuf", quick_runs: 300_000, thorough_runs: 30_000_000, sweep_every: 1, note: "underlying writes are all-or-nothing (datagram semantics); short writes are not injected; sockets are stubs" },
+        "C08" | "C09" | "C10" | "C11" | "C15" | "C16" => Plan { engine: "queue", quick_runs: 250_000, thorough_runs: 20_000_000, sweep_every: 0, note: "the wrapped sink is scripted; crossbeam's blocking paths are replaced by simulated waiting; capacity 0 (rendezvous) is excluded from every oracle except no-panic" },
         _ => return None,
     })
 }
@@ -68,6 +70,7 @@ fn main() {
             };
             match plan.engine {
                 "linebuf" => run_batch::<e2::E2>(&ba),
+                "queue" => run_batch::<e3::E3>(&ba),
                 _ => 2,
             }
         }
@@ -90,6 +93,7 @@ fn main() {
             let quiet = has("--quiet");
             match rf.engine.as_str() {
                 "linebuf" => replay::<e2::E2>(&rf, quiet),
+                "queue" => replay::<e3::E3>(&rf, quiet),
                 other => {
                     eprintln!("HARNESS-ERROR: unknown engine {other}");
                     2
@@ -99,7 +103,12 @@ fn main() {
         "selftest" => {
             let seeds = get("--seeds").and_then(|s| s.parse().ok()).unwrap_or(500);
             let mut bad = 0;
-            for (name, r) in [("linebuf/C07", selftest::<e2::E2>("C07", seeds, 16, DEFAULT_SEED))] {
+            for (name, r) in [
+                ("linebuf/C07", selftest::<e2::E2>("C07", seeds, 16, DEFAULT_SEED)),
+                ("queue/C08", selftest::<e3::E3>("C08", seeds, 16, DEFAULT_SEED)),
+                ("queue/C11", selftest::<e3::E3>("C11", seeds, 16, DEFAULT_SEED)),
+                ("queue/C09", selftest::<e3::E3>("C09", seeds, 16, DEFAULT_SEED)),
+            ] {
                 match r {
                     Ok(n) => println!("selftest {name}: {n} seeds x 2 executions identical"),
                     Err(e) => {
